@@ -661,6 +661,54 @@ pub fn faults(out: &mut Out, seed: u64, thorough: bool) {
             }
         }
     }
+    // hand-built trains whose first fragment carries an extension chain of E bytes and leaves 0..E+1 PDU bytes
+    // for the end packet (the total length counts no extension bytes; `encap_ext` never cuts that late)
+    let chains_e: Vec<(u16, Vec<u8>)> = vec![
+        (0x0211, [vec![1u8, 2], 0x0800u16.to_be_bytes().to_vec()].concat()),
+        (0x0322, [vec![1u8, 2, 3, 4], 0x0800u16.to_be_bytes().to_vec()].concat()),
+        (0x0042, [vec![1u8, 2, 3], 0x0800u16.to_be_bytes().to_vec()].concat()),
+        (0x0211, [vec![1u8, 2], 0x0322u16.to_be_bytes().to_vec(), vec![5, 6, 7, 8], 0x0800u16.to_be_bytes().to_vec()].concat()),
+    ];
+    for (first_id, chain) in &chains_e {
+        for label in [vec![1u8, 2, 3, 4, 5, 6], vec![7u8, 7, 7], vec![]] {
+            for r in 0..=(chain.len() + 1) {
+                let pdu = rng.bytes(24);
+                let mut tt = train(&pdu, &label, false, 0x0800, 4, &[24 - r.min(24)]);
+                tt[0].ptype = *first_id;
+                tt[0].chain = chain.clone();
+                run_faulty(out, &mut rng, "ext_first_late_cut", &[], &tt.iter().map(|p| p.ser()).collect::<Vec<_>>());
+            }
+        }
+    }
+    // the same tiny PDUs (the empty one included) with a wrong CRC trailer, and with a right trailer but a damaged
+    // protocol type / label / payload byte: never delivered
+    for n in 0..=3usize {
+        for label in [vec![1u8, 2, 3, 4, 5, 6], vec![7u8, 7, 7], vec![]] {
+            let pdu = rng.bytes(n);
+            for cuts in [vec![0usize], vec![n], vec![0, n]] {
+                for dmg in 0..6usize {
+                    let mut tt = train(&pdu, &label, false, 0x0800, 4, &cuts);
+                    tt.retain(|p| !(p.kind == 0 && p.payload.is_empty()));
+                    let last = tt.len() - 1;
+                    match dmg {
+                        0 => tt[last].crc ^= 1,
+                        1 => tt[last].crc = 0,
+                        2 => tt[last].crc = !tt[last].crc,
+                        3 => tt[0].ptype ^= 0x0100,
+                        4 if !label.is_empty() => tt[0].label[0] ^= 0x40,
+                        5 if n > 0 => {
+                            let i = tt.iter().position(|p| !p.payload.is_empty()).unwrap_or(0);
+                            if !tt[i].payload.is_empty() {
+                                tt[i].payload[0] ^= 0x08;
+                            }
+                        }
+                        _ => tt[last].crc ^= 0x8000_0000,
+                    }
+                    run_faulty(out, &mut rng, "tiny_damaged", &[], &tt.iter().map(|p| p.ser()).collect::<Vec<_>>());
+                }
+            }
+        }
+    }
     // storage > 65535 bytes and a train longer than 65535 bytes (16-bit length arithmetic)
     big_train(out, &mut rng);
 }
